@@ -268,7 +268,8 @@ ASMJIT_FAVOR_SIZE Error FuncFrame::finalize() noexcept {
   _sa_offset_from_sp = has_da ? FuncFrame::kTagInvalidOffset : v;
 
   // Calculate where the function arguments start relative to FP or user-provided register.
-  _sa_offset_from_sa = has_fp ? return_address_size + register_size      // Return address + frame pointer.
+  _sa_offset_from_sa = (has_fp && !arch_traits.has_link_reg())
+                          ? return_address_size + register_size        // Return address + frame pointer.
                           : return_address_size + _push_pop_save_size; // Return address + all push/pop regs.
 
   return Error::kOk;
